@@ -48,20 +48,21 @@ pub open spec fn trem(a: int, b: int) -> int
     a - b * tdiv(a, b)
 }
 
-// Bitwise operations: defined through u128 for w <= 128 (so that `by(bit_vector)` applies);
-// for wider values they are left uninterpreted -- the properties quantify over <= 16-byte values.
-pub uninterp spec fn wide_and(w: nat, a: nat, b: nat) -> nat;
-pub uninterp spec fn wide_or(w: nat, a: nat, b: nat) -> nat;
-pub uninterp spec fn wide_xor(w: nat, a: nat, b: nat) -> nat;
-
-pub open spec fn bits_and(w: nat, a: nat, b: nat) -> nat {
-    if w <= 128 { ((a as u128) & (b as u128)) as nat } else { wide_and(w, a, b) }
+// Bitwise operations, defined bit by bit over the naturals (all widths, no axioms).
+pub open spec fn bits_and(a: nat, b: nat) -> nat
+    decreases a
+{
+    if a == 0 { 0 } else { (if a % 2 == 1 && b % 2 == 1 { 1nat } else { 0nat }) + 2 * bits_and(a / 2, b / 2) }
 }
-pub open spec fn bits_or(w: nat, a: nat, b: nat) -> nat {
-    if w <= 128 { ((a as u128) | (b as u128)) as nat } else { wide_or(w, a, b) }
+pub open spec fn bits_or(a: nat, b: nat) -> nat
+    decreases a + b
+{
+    if a == 0 && b == 0 { 0 } else { (if a % 2 == 1 || b % 2 == 1 { 1nat } else { 0nat }) + 2 * bits_or(a / 2, b / 2) }
 }
-pub open spec fn bits_xor(w: nat, a: nat, b: nat) -> nat {
-    if w <= 128 { ((a as u128) ^ (b as u128)) as nat } else { wide_xor(w, a, b) }
+pub open spec fn bits_xor(a: nat, b: nat) -> nat
+    decreases a + b
+{
+    if a == 0 && b == 0 { 0 } else { (if (a % 2 == 1) != (b % 2 == 1) { 1nat } else { 0nat }) + 2 * bits_xor(a / 2, b / 2) }
 }
 /// bitwise complement within w bits (pure arithmetic: 2^w - 1 - u).
 pub open spec fn bits_not(w: nat, a: nat) -> nat { (p2(w) - 1 - a) as nat }
